@@ -68,21 +68,27 @@ CASE_TIMEOUT = 900
 CHUNK = 1
 K_MODEL = 10.0          # safety factor on the documented accuracy model (DESIGN 2.3-3)
 ULP_ID = 8.0            # identities among reported functions (observed: 0 ulp, same float ops)
+# floors: ~55 % of the smallest count seen on the unchanged tree over seeds 0..4 (quick) /
+# seeds 0,1 (thorough); a repaired tracePhase (C11) only raises the counts
 FLOORS = {
-    "quick": {"distinct_nontrivial": 60,
-              "mon": {"identities": 20000, "deriv_inside": 2500, "deriv_outside": 2500,
-                      "continuity": 300, "exact_p": 2500, "exact_dp": 2500, "alpha_exact": 30,
-                      "alpha_identity": 1000, "contract_setExtrapolate": 24,
-                      "boundary_evaluations": 1500},
-              "cls": {"route:direct": 8, "route:manager": 6, "P_trace:ok": 20,
-                      "fam:poly1": 4, "fam:poly2": 4, "fam:bag1": 4}},
-    "thorough": {"distinct_nontrivial": 600,
-                 "mon": {"identities": 500000, "deriv_inside": 60000, "deriv_outside": 60000,
-                         "continuity": 3000, "exact_p": 60000, "exact_dp": 60000,
-                         "alpha_exact": 400, "alpha_identity": 20000,
-                         "contract_setExtrapolate": 250, "boundary_evaluations": 20000},
-                 "cls": {"route:direct": 100, "route:manager": 60, "P_trace:ok": 250,
-                         "fam:poly1": 50, "fam:poly2": 50, "fam:bag1": 50}},
+    "quick": {"distinct_nontrivial": 320,
+              "mon": {"identities": 75000, "deriv_inside": 9000, "deriv_outside": 7500,
+                      "continuity": 800, "exact_p": 9000, "exact_dp": 9000, "alpha_exact": 200,
+                      "alpha_identity": 1000, "contract_setExtrapolate": 40,
+                      "boundary_evaluations": 4000},
+              "cls": {"route:direct": 20, "route:manager": 16, "P_trace:ok": 35,
+                      "fam:poly1": 12, "fam:poly2": 12, "fam:bag1": 12,
+                      "boundary:high:TMin": 30, "boundary:high:TMax": 30,
+                      "boundary:low:TMin": 30, "boundary:low:TMax": 30}},
+    "thorough": {"distinct_nontrivial": 3500,
+                 "mon": {"identities": 2500000, "deriv_inside": 400000, "deriv_outside": 250000,
+                         "continuity": 9000, "exact_p": 400000, "exact_dp": 400000,
+                         "alpha_exact": 2000, "alpha_identity": 10000,
+                         "contract_setExtrapolate": 400, "boundary_evaluations": 40000},
+                 "cls": {"route:direct": 300, "route:manager": 180, "P_trace:ok": 450,
+                         "fam:poly1": 150, "fam:poly2": 150, "fam:bag1": 150,
+                         "boundary:high:TMin": 400, "boundary:high:TMax": 400,
+                         "boundary:low:TMin": 400, "boundary:low:TMax": 400}},
 }
 EPS = float(np.finfo(float).eps)
 SFX = {"high": "HighT", "low": "LowT"}
@@ -149,9 +155,20 @@ def _direct_ranges(rng, spec):
                 Thi = min(Thi, hi_e - 0.15 * (hi_e - Tn))
         if mode[1] == "inside":
             Thi = min(Thi, phi_)
-        # at least 6 steps on the shorter side, at most ~1500 steps in total
-        dT = min(dT, (Tn - Tlo) / 6, (Thi - Tn) / 6)
+        # at least ~6 steps on the shorter side (not an integer number of them), at most
+        # ~1500 steps in total
+        dT = min(dT, (Tn - Tlo) / float(rng.uniform(6.2, 8.8)), (Thi - Tn) / float(rng.uniform(6.2, 8.8)))
         dT = max(dT, (Thi - Tlo) / 1500)
+        if rng.random() < 0.2:
+            # "round numbers": both requested ends an integer number of steps from T_n
+            for side in (0, 1):
+                if mode[side] == "inside":
+                    n = max(3, int(round(abs((Tlo if side == 0 else Thi) - Tn) / dT)))
+                    if side == 0:
+                        Tlo = Tn - n * dT
+                    else:
+                        Thi = Tn + n * dT
+                    mode[side] = "inside-commensurate"
         out[phase] = {"Tlo": float(Tlo), "Thi": float(Thi), "dT": float(dT), "mode": mode}
     return out
 
@@ -173,8 +190,8 @@ def _physical_window(pot, phase, Tn):
 
 def generate(tier, seed):
     rng = np.random.default_rng(10000 + seed)
-    n_direct, n_manager = (20, 16) if tier == "quick" else (170, 110)
-    nT = {"log": 110, "in": 110} if tier == "quick" else {"log": 500, "in": 600}
+    n_direct, n_manager = (30, 24) if tier == "quick" else (420, 261)
+    nT = {"log": 110, "in": 110} if tier == "quick" else {"log": 400, "in": 500}
     fams = ["poly1", "poly2", "bag1"]
     cases = []
     for i in range(n_direct + n_manager):
@@ -272,11 +289,11 @@ def temperatures(rng, TMin, TMax, knots, nT):
                 (Tb * (1 - 4 * EPS), "bnd"), (Tb * (1 + 4 * EPS), "bnd")]
         for d in BOUNDARY_OFFSETS:
             out += [(Tb * (1 - d), "bnd"), (Tb * (1 + d), "bnd")]
-    out += [(float(T), "in") for T in rng.uniform(TMin, TMax, nT["in"])]
+    out += [(float(min(max(T, TMin), TMax)), "in") for T in rng.uniform(TMin, TMax, nT["in"])]
     kin = knots[(knots > TMin) & (knots < TMax)]
     if kin.size:
         out += [(float(T), "knot") for T in rng.choice(kin, size=min(6, kin.size), replace=False)]
-    return out
+    return [(float(T), tag) for T, tag in out]
 
 
 # ------------------------------------------------------------------------------ helpers
@@ -336,6 +353,27 @@ def report(th, sfx, T):
         except Exception as exc:      # noqa: BLE001
             return vals, (nm, repr(exc)[:200])
     return vals, None
+
+
+def _div(a, b):
+    """Float division that returns nan/inf instead of raising (python floats raise)."""
+    try:
+        return a / b
+    except ZeroDivisionError:
+        return float("nan") if a == 0 or a != a else math.copysign(float("inf"), a)
+
+
+def _power_law_safe(d, T):
+    """False where a*T^mu is formed from factors that over/underflow individually (python's
+    float pow raises OverflowError there): (|mu|+2) * max|ln| of T (and of the 3-sample
+    stencil T/4..4T) and of the matching temperature must stay below 600."""
+    if d["TMin"] <= T <= d["TMax"]:
+        return True
+    i = 0 if T < d["TMin"] else 1
+    Tb = d["TMin"] if i == 0 else d["TMax"]
+    mu_b = 1.0 + _div(1.0, d["csq_end"][i])
+    return bool(math.isfinite(mu_b) and (abs(mu_b) + 2) * max(
+        abs(math.log(4 * T)), abs(math.log(T / 4)), abs(math.log(Tb))) <= 600)
 
 
 def region_of(T, TMin, TMax):
@@ -479,10 +517,15 @@ def run_case(case):
             Tm = 0.5 * (TMin + TMax)
             sc = EX.self_check(pot, phase, Tm)
             mon["oracle_self_check"] += 1
-            if max(sc) > 1e-6:
+            # 4th-order differences with h = 2e-3 T: 1e-9..3e-6 on the unchanged zoo (largest
+            # next to a spinodal, where V_phase has a square-root singularity); a wrong
+            # closed form gives O(1e-2..1)
+            if max(sc) > 1e-4:
                 return {"key": key0, "cls": classes, "nontrivial": False, "obs": obs, "viol": [],
                         "mon": mon, "inconclusive": f"closed-form self-check failed {sc}"}
-            d["model"] = EX.SplineErrorModel(pot, phase, knots)
+            d["model"] = EX.SplineErrorModel(pot, phase, knots, pt["nu"])
+            ratio, where = d["model"].near_duplicate()
+            d["closest_abscissae"] = {"hmin_over_hmed": ratio, "at": where}
     obs["Tn"] = Tn
 
     # ------------------------------------------------------- contract events (real calls)
@@ -538,13 +581,9 @@ def run_case(case):
                 mon["boundary_evaluations"] += 1
             ctx = {"T": T, "phase": phase, "region": reg, "TMin": TMin, "TMax": TMax,
                    "T_over_Tb": T / (TMin if T < 0.5 * (TMin + TMax) else TMax)}
-            if reg != "inside":
-                Tb = TMin if reg == "below" else TMax
-                mu_b = 1.0 + 1.0 / csq_end[reg]
-                if (abs(mu_b) + 2) * max(abs(math.log(T)), abs(math.log(Tb))) > 600:
-                    # a*T^mu is formed from factors that over/underflow individually
-                    mon["power_law_factor_overflow(not judged)"] += 1
-                    continue
+            if not _power_law_safe(d, T):
+                mon["power_law_factor_overflow(not judged)"] += 1
+                continue
             if err is not None:
                 V.add(f"thermo-function-raises:{err[0]}{sfx}:{reg}", 1.0,
                       f"{err[0]}{sfx}({T!r}) raised {err[1]} ({reg} the range "
@@ -573,13 +612,13 @@ def run_case(case):
                   max(abs(T * q["dp"]), abs(q["p"])))
             ident("w-not-Tdp", q["w"], T * q["dp"], abs(T * q["dp"]))
             ident("de-not-Tddp", q["de"], T * q["ddp"], abs(T * q["ddp"]))
-            ratio_csq = q["dp"] / (T * q["ddp"]) if q["ddp"] != 0 else float("nan")
+            ratio_csq = _div(q["dp"], T * q["ddp"])
             if reg == "inside":
                 ident("csq-not-dp-over-de", q["csq"], ratio_csq, abs(ratio_csq))
             else:
                 ident("csq-outside-not-range-end-value", q["csq"], csq_end[reg],
                       abs(csq_end[reg]))
-                mu_b = 1.0 + 1.0 / csq_end[reg] if csq_end[reg] != 0 else float("nan")
+                mu_b = 1.0 + _div(1.0, csq_end[reg])
                 # pow(T,mu-1)/pow(T,mu-2): each exponent carries a rounding eps*|mu|, which
                 # pow turns into a relative eps*|mu|*|ln T|; mu-1 = 1/csq to eps*mu/(mu-1)
                 extra = 4 * EPS * (abs(mu_b) + 2) * (abs(math.log(T)) + 1) * abs(ratio_csq)
@@ -589,7 +628,7 @@ def run_case(case):
             # ---- reported derivatives are derivatives of reported p ---------------
             if reg == "inside":
                 k = int(min(max(np.searchsorted(knots, T, side="right") - 1, 0), knots.size - 2))
-                a_, b_ = max(knots[k], TMin), min(knots[k + 1], TMax)
+                a_, b_ = float(max(knots[k], TMin)), float(min(knots[k + 1], TMax))
                 if not (a_ <= T <= b_) or (b_ - a_) < 1e-7 * T:
                     mon["deriv_interval_too_narrow"] += 1
                 else:
@@ -612,7 +651,10 @@ def run_case(case):
                                       f"{abs(got - want):.3e}, rounding bound {tol:.1e})",
                                       {**ctx, **q, "fit": want})
             else:
-                pl = power_law_derivatives(pfun, T, +1 if reg == "above" else -1)
+                try:
+                    pl = power_law_derivatives(pfun, T, +1 if reg == "above" else -1)
+                except (OverflowError, ZeroDivisionError, ValueError):
+                    pl = None
                 if pl is None:
                     mon["deriv_outside_undecided"] += 1
                 else:
@@ -634,29 +676,46 @@ def run_case(case):
                 m = d["model"]
                 ex = EX.eos(pot, phase, T)
                 Vs = abs(float(ex["p"][0])) + pot.a * T ** 4
-                tol_p = K_MODEL * (3 * rtol * Vs + m.model(0, T)) + 64 * EPS * Vs
-                tol_dp = K_MODEL * (m.model(1, T) + 4 * d["nu"] / m.hloc(T)) \
-                    + 64 * EPS * (abs(float(ex["dp"][0])) + Vs / T)
+                tol_p = K_MODEL * (rtol * Vs + m.model(0, T)) + 64 * EPS * Vs
+                tol_dp = K_MODEL * m.model(1, T) + 64 * EPS * (abs(float(ex["dp"][0])) + Vs / T)
                 mon["exact_p"] += 1
                 mon["exact_dp"] += 1
                 r = abs(q["p"] - float(ex["p"][0])) / tol_p
-                tally.add("exact:p", r)
-                tally.add("exact:p rel.err", abs(q["p"] - float(ex["p"][0])) / Vs)
-                if not r <= 1.0:
+                tb = "" if d["closest_abscissae"]["hmin_over_hmed"] >= 1e-6 else \
+                    " (table with near-duplicate abscissae)"
+                tally.add("exact:p" + tb, r)
+                tally.add("exact:p rel.err" + tb, abs(q["p"] - float(ex["p"][0])) / Vs)
+                if not r <= 1.0 and d["closest_abscissae"]["hmin_over_hmed"] < 1e-6:
+                    pass        # reported with the dp observation below (same mechanism)
+                elif not r <= 1.0:
                     V.add(f"pressure-not-minus-potential-at-minimum:{phase}", r,
                           f"{phase}-T phase, T={T!r} inside [{TMin!r},{TMax!r}]: p={q['p']!r} but "
                           f"-V at the closed-form minimum is {float(ex['p'][0])!r} (rel diff "
                           f"{abs(q['p'] - float(ex['p'][0])) / Vs:.3e}, tol {tol_p / Vs:.1e}; "
                           f"{fam}, {route})", {**ctx, **q, "exact": float(ex["p"][0])})
                 r = abs(q["dp"] - float(ex["dp"][0])) / tol_dp
-                tally.add("exact:dp", r)
-                if not r <= 1.0:
+                tally.add("exact:dp" + tb, r)
+                tally.add("exact:ddp/model(not judged)" + tb, abs(q["ddp"] - float(ex["ddp"][0]))
+                          / (K_MODEL * m.model(2, T) + 64 * EPS * Vs / T ** 2))
+                if not r <= 1.0 and d["closest_abscissae"]["hmin_over_hmed"] < 1e-6:
+                    ca = d["closest_abscissae"]
+                    V.add(_near_dup_mech(d), r,
+                          f"{phase}-T phase: the traced table has two abscissae {ca['hmin_over_hmed']:.1e}"
+                          f" median steps apart at T={ca['at']!r}; at T={T!r} inside "
+                          f"[{TMin!r},{TMax!r}] dp={q['dp']!r} vs closed form {float(ex['dp'][0])!r} "
+                          f"(rel {abs(q['dp'] / float(ex['dp'][0]) - 1):.1e}, documented spline model "
+                          f"{tol_dp / abs(float(ex['dp'][0])):.1e}); cs^2 at the range ends "
+                          f"{d['csq_end']} vs closed form {d['csq_exact_at_ends']}, mu={d['mu']} "
+                          f"({fam}, {route})",
+                          {**ctx, **q, "exact": float(ex["dp"][0]), "closest_abscissae": ca,
+                           "csq_end": d["csq_end"], "csq_exact": d["csq_exact_at_ends"]})
+                elif not r <= 1.0:
                     V.add(f"dp-off-closed-form:{phase}", r,
                           f"{phase}-T phase, T={T!r} inside the range: dp={q['dp']!r}, closed form "
                           f"{float(ex['dp'][0])!r} (diff {abs(q['dp'] - float(ex['dp'][0])):.3e}, "
                           f"spline-error model {tol_dp:.1e})",
                           {**ctx, **q, "exact": float(ex["dp"][0])})
-                tally.add("exact:ddp rel.err(not judged)",
+                tally.add("exact:ddp rel.err(not judged)" + tb,
                           abs(q["ddp"] - float(ex["ddp"][0])) / abs(float(ex["ddp"][0])))
         for reg in sorted(decided):
             keys.append(f"{key0}:{phase}:{reg}")
@@ -692,6 +751,9 @@ def run_case(case):
         if hi > lo:
             Ta += [float(t) for t in rng.uniform(lo, hi, 6)]
         for T in Ta:
+            if not all(_power_law_safe(info[ph], T) for ph in ("high", "low")):
+                mon["power_law_factor_overflow(not judged)"] += 1
+                continue
             try:
                 al = float(th.alpha(T))
                 r_ = {ph: report(th, SFX[ph], T)[0] for ph in ("high", "low")}
@@ -702,10 +764,10 @@ def run_case(case):
             if len(H) < 7 or len(L) < 7:
                 continue
             mon["alpha_identity"] += 1
-            want = (H["e"] - L["e"] - (H["p"] - L["p"]) / L["csq"]) / 3 / H["w"]
-            scale = (abs(H["e"]) + abs(L["e"]) + (abs(H["p"]) + abs(L["p"])) / abs(L["csq"])) \
-                / 3 / abs(H["w"])
-            r = abs(al - want) / (ULP_ID * EPS * scale)
+            want = _div(_div(H["e"] - L["e"] - _div(H["p"] - L["p"], L["csq"]), 3), H["w"])
+            scale = _div(abs(H["e"]) + abs(L["e"]) + _div(abs(H["p"]) + abs(L["p"]), abs(L["csq"])),
+                         3 * abs(H["w"]))
+            r = _div(abs(al - want), ULP_ID * EPS * scale)
             tally.add("identity:alpha", r)
             if not r <= 1.0:
                 V.add("identity-alpha-not-its-formula", r,
@@ -716,14 +778,13 @@ def run_case(case):
                 tolq = {}
                 exq = {}
                 for ph in ("high", "low"):
-                    m, nu = info[ph]["model"], info[ph]["nu"]
+                    m = info[ph]["model"]
                     ex = EX.eos(pot, ph, T)
                     Vs = abs(float(ex["p"][0])) + pot.a * T ** 4
-                    h = m.hloc(T)
                     exq[ph] = [float(ex[k][0]) for k in ("p", "dp", "ddp")]
-                    tolq[ph] = [K_MODEL * (3 * rtol * Vs + m.model(0, T)),
-                                K_MODEL * (m.model(1, T) + 4 * nu / h) + 64 * EPS * Vs / T,
-                                K_MODEL * (m.model(2, T) + 16 * nu / h ** 2) + 64 * EPS * Vs / T ** 2]
+                    tolq[ph] = [K_MODEL * (rtol * Vs + m.model(0, T)),
+                                K_MODEL * m.model(1, T) + 64 * EPS * Vs / T,
+                                K_MODEL * m.model(2, T) + 64 * EPS * Vs / T ** 2]
                 base = [exq["high"][0], exq["high"][1], exq["low"][0], exq["low"][1],
                         exq["low"][2]]
                 dq = [tolq["high"][0], tolq["high"][1], tolq["low"][0], tolq["low"][1],
@@ -741,7 +802,15 @@ def run_case(case):
                 r = abs(al - a0) / tol
                 tally.add("exact:alpha", r)
                 tally.add("exact:alpha rel.err", abs(al - a0) / max(abs(a0), 1e-300))
-                if not r <= 1.0:
+                dups = [info[ph] for ph in ("high", "low")
+                        if info[ph]["closest_abscissae"]["hmin_over_hmed"] < 1e-6]
+                if not r <= 1.0 and dups:
+                    V.add(_near_dup_mech(dups[0]), r,
+                          f"alpha({T!r})={al!r}, closed form {a0!r} (diff {abs(al - a0):.3e}, "
+                          f"propagated tolerance {tol:.1e}) on a table with nearly coincident "
+                          f"abscissae {dups[0]['closest_abscissae']} ({fam}, {route})",
+                          {"T": T, "Tn": Tn, "alpha": al, "exact": a0})
+                elif not r <= 1.0:
                     V.add("alpha-off-closed-form" + ("-at-Tn" if T == Tn else ""), r,
                           f"alpha({T!r})={al!r}, closed form {a0!r} (diff {abs(al - a0):.3e}, "
                           f"propagated tolerance {tol:.1e}; {fam}, {route})",
@@ -758,6 +827,19 @@ def run_case(case):
         obs["vJ"] = float(getattr(manager.hydrodynamics, "vJ", float("nan")))
     return {"key": key0, "cls": sorted(set(classes)), "nontrivial": bool(keys), "obs": obs,
             "viol": V.list(), "mon": mon, "keys": keys}
+
+
+def _near_dup_mech(d):
+    """Mechanism name for closed-form mismatches on a table with two abscissae closer than
+    1e-6 median steps: at an end that was *requested* (not flagged as a spinodal) this is the
+    tiny remainder step of RK45 onto t_bound; at a flagged end it is the collapse of the
+    steps in front of a spinodal."""
+    ca = d["closest_abscissae"]
+    lo, hi = d["table"]
+    at_lower = abs(ca["at"] - lo) < abs(ca["at"] - hi)
+    flagged = d["flags"][0 if at_lower else 1]
+    return ("near-coincident-table-abscissae-corrupt-derivatives" if not flagged else
+            "collapsed-steps-at-spinodal-end-corrupt-derivatives")
 
 
 def _coefficients(th):
